@@ -40,6 +40,14 @@ def is_index_increment(f, n, field='mIndex'):
     return False
 
 
+def base_type_name(t):
+    t = t.strip()
+    for q in ('const ', 'volatile '):
+        while t.startswith(q):
+            t = t[len(q):]
+    return t.rstrip('&* ').strip()
+
+
 class Deltas(object):
     """(consumed, counted) per normal path, with same-class helper methods inlined."""
 
@@ -77,13 +85,24 @@ class Deltas(object):
 
 
 def run(prog, rep):
+    from rules import fresh_carrier
+    fresh_carrier.check(prog, rep, 'R5.10')
+    # ---------------------------------------------------------------- R5.9 an integer the target cannot hold reaches the overflow policy
+    rep.rule('R5.9', 'MsgPack readers, integer targets: for every integer-family first byte the wire value is either a constant the target holds '
+                     'exactly or it is delivered through the policy mapper (ConvertByPolicy) - never stored by a bare cast - so an offending value is '
+                     'skipped by policy: reported as not loaded, target untouched (table shared with C04 R4.7 / C07 R7.1)', floor=3000)
+    rep.rule('R5.9x', 'MsgPack readers, integer targets: the cursor ends behind the value whether it is stored or skipped by the overflow policy',
+             floor=3000)
+    from rules import msgpack_tables as _M
+    _M.check_accept_tables(prog, rep, 'R5.9', 'R5.9x', families=('int',), declare=False, value_types=False)
     rep.rule('R5.6', 'MsgPack object scope: a value that was skipped or refused is accounted for like a loaded one - on every normal path of every '
                      'method the values consumed equal the cursor advances, the pending key is dropped (shared with C03 R3.5 / C07 R7.5)', floor=20)
     from rules import c03
     c03.check_object_scope(prog, rep, 'R5.6')
     rep.rule('R5.1', 'MsgPack array/binary read scope: on every normal path #(reader calls consuming one element) == #(++mIndex)', floor=12)
     rep.rule('R5.2', 'JSON/XML array scope load paths call LoadNextItem() exactly once, before any type test of the element', floor=10)
-    rep.rule('R5.4', 'byte-container loading: no second consuming Open*Scope attempt after OpenBinaryScope failed (it has consumed or thrown)', floor=2)
+    rep.rule('R5.4', 'byte-container loading: the array attempt after a failed OpenBinaryScope sees the same value - every failing path of the scope\'s '
+                     'OpenBinaryScope consumes nothing (no reader advance, no ++mIndex, pending key kept) - otherwise a second attempt consumes a neighbour', floor=6)
     deltas = Deltas(prog)
     # ---------------------------------------------------------------- R5.1
     n_methods = 0
@@ -139,6 +158,70 @@ def run(prog, rep):
                         func=f.id)
 
     # ---------------------------------------------------------------- R5.4
+    # how does the read-side OpenBinaryScope of each MsgPack scope fail? A failing (nullopt) path is 'consuming' when it calls a consuming
+    # reader method, increments mIndex or finishes the pending key. A path taken with the value classified BinaryArray cannot fail in
+    # ReadBinarySize: the decision tables say ReadBinarySize returns true (or throws) for every first byte ReadValueType classifies so.
+    from rules import msgpack_tables as _T
+    bin_true = True
+    try:
+        tabs = _T.tables(prog)
+        vt = prog.enums.get('BitSerializer::MsgPack::Detail::ValueType')
+        for kind in sorted(tabs):
+            fvt, _, pvt = tabs[kind][('ReadValueType', None)]
+            rbs = [v for (nm, pt), v in tabs[kind].items() if nm == 'ReadBinarySize']
+            if not rbs or vt is None:
+                bin_true = False
+                continue
+            _, _, pbs = rbs[0]
+            for bcode in range(256):
+                rets = set(p.outcome[1] for p in pvt[bcode] if _T.sufficient(p) and p.outcome[0] == 'RET')
+                if vt['items']['BinaryArray'] in rets:
+                    for p in pbs[bcode]:
+                        if _T.sufficient(p) and p.outcome[0] == 'RET' and p.outcome[1] != 1:
+                            bin_true = False
+    except (AnalysisBroken, KeyError):
+        bin_true = False
+    fail_mode = {}      # scope class (without template arguments) -> (consuming?, evidence)
+    for f in sorted(prog.funcs.values(), key=lambda x: x.id):
+        if f.name != 'OpenBinaryScope' or f.body is None or 'MsgPackRead' not in (f.cls or ''):
+            continue
+        g = CFG(f)
+        consuming, quiet = [], 0
+        for path, dec, kind in g.paths():
+            if kind != 'return':
+                continue
+            nodes = list(g.path_nodes(path))
+            rets = [n for n in nodes if n['k'] == 'ReturnStmt']
+            if not rets or not any(x['k'] == 'DeclRefExpr' and x.get('n') == 'nullopt' for x in f.walk(rets[-1])):
+                continue
+            typed_bin = False
+            for cid, idx, tk in dec:
+                c = f.node(cid) if isinstance(cid, int) else None
+                if c is None:
+                    continue
+                calls_vt = any(x['k'] == 'CXXMemberCallExpr' and (f.callee(x) or {}).get('n') == 'ReadValueType' for x in f.walk(c))
+                names_bin = any(x['k'] == 'DeclRefExpr' and x.get('n') == 'BinaryArray' for x in f.walk(c))
+                ops = [x.get('op') for x in f.walk(c) if x['k'] in ('BinaryOperator', 'CXXOperatorCallExpr') and x.get('op') in ('==', '!=')]
+                if calls_vt and names_bin and len(ops) == 1 and ((ops[0] == '!=' and idx == 1) or (ops[0] == '==' and idx == 0)):
+                    typed_bin = True
+            ev = []
+            for n in nodes:
+                if is_reader_consume(f, n):
+                    ev.append('%s@%d' % (f.callee(n)['n'], n['l']))
+                elif is_index_increment(f, n):
+                    ev.append('++mIndex@%d' % n['l'])
+                elif n['k'] == 'CXXMemberCallExpr' and (f.callee(n) or {}).get('n') in ('OnFinishChildScope', 'ResetKey', 'Reset'):
+                    ev.append('%s@%d' % (f.callee(n)['n'], n['l']))
+            if typed_bin and bin_true and any(e.startswith('ReadBinarySize') for e in ev):
+                continue        # infeasible: ReadBinarySize does not fail for a value classified BinaryArray
+            if ev:
+                consuming.append(ev)
+            else:
+                quiet += 1
+        cls = strip_targs(f.cls)
+        prev = fail_mode.get(cls)
+        if prev is None or (consuming and not prev[0]):
+            fail_mode[cls] = (bool(consuming), consuming[0] if consuming else ['%d failing path(s), none consumes' % quiet], f)
     for f in sorted(prog.funcs.values(), key=lambda x: x.id):
         if f.pq != 'BitSerializer::Serialize' or not pattern_in_lib(f):
             continue
@@ -150,10 +233,10 @@ def run(prog, rep):
             seq = []
             for n in g.path_nodes(path):
                 if n['k'] == 'CXXMemberCallExpr':
-                    s = f.callee(n)
-                    if s is not None and s['n'] in ('OpenBinaryScope', 'OpenArrayScope', 'OpenObjectScope'):
-                        if not seq or seq[-1] != s['n']:
-                            seq.append(s['n'])
+                    sy = f.callee(n)
+                    if sy is not None and sy['n'] in ('OpenBinaryScope', 'OpenArrayScope', 'OpenObjectScope'):
+                        if not seq or seq[-1] != sy['n']:
+                            seq.append(sy['n'])
             if len(seq) > 1:
                 opens.append(seq)
         if not any(n['k'] == 'CXXMemberCallExpr' and (f.callee(n) or {}).get('n') == 'OpenBinaryScope' for n in f.walk()):
@@ -163,15 +246,36 @@ def run(prog, rep):
         site = '%s|%s' % (f.pq, 'keyed' if keyed else 'unkeyed')
         what = 'C array' if '[' in f.tu['types'][f.params[-1]['t']] else 'container'
         site += '|' + what
-        if opens and not keyed:
+        scope_cls = strip_targs(base_type_name(f.tu['types'][f.params[0]['t']]))
+        fm = fail_mode.get(scope_cls)
+        if fm is None:
+            rep.defer_broken('R5.4: no OpenBinaryScope of %s in the facts' % scope_cls)
+            continue
+        if not opens:
+            rep.ok('R5.4', site, sample={'function': f.id[:160], 'reason': 'one attempt only'})
+        elif not fm[0]:
+            rep.ok('R5.4', site, sample={'function': f.id[:160], 'scope': scope_cls,
+                                         'reason': 'OpenBinaryScope fails without consuming (%s): the array attempt reads the same value and applies the policy once' % fm[1][0]})
+        elif not keyed:
             rep.finding('R5.4', site, f.loc(),
                         'loading a byte %s from a MsgPack array/root: when OpenBinaryScope fails (value already skipped by policy) OpenArrayScope is attempted '
-                        'and consumes the NEXT value' % what, {'sequence': opens[0], 'instantiation': f.id}, func=f.id)
-        elif opens:
-            # keyed: the object scope's second lookup re-finds the same key (wrap-around scan) and re-reads the same value
-            rep.ok('R5.4', site, sample={'function': f.id[:160], 'reason': 'keyed second attempt looks the key up again: same value, no neighbour consumed'})
+                        'and consumes the NEXT value' % what, {'sequence': opens[0], 'instantiation': f.id, 'consuming failure of OpenBinaryScope': fm[1]}, func=f.id)
         else:
-            rep.ok('R5.4', site, sample={'function': f.id[:160]})
+            # keyed: the object scope's second lookup re-finds the same key (wrap-around scan) and re-reads the same value - provided the key
+            # object is the caller's own. The map loaders pass the reference VisitKeys gave them: the scope's current-key slot, which the
+            # rescan overwrites with the NEXT key, so the comparison is the slot with itself and the next entry's value is consumed.
+            kt = f.tu['types'][f.params[1]['t']].strip()
+            own = kt.startswith('const ') or '[' in kt or kt.endswith('*')
+            if own:
+                rep.ok('R5.4', site, sample={'function': f.id[:160], 'key': kt,
+                                             'reason': 'keyed second attempt looks the key up again: same value, no neighbour consumed'})
+            else:
+                site += '|archive key slot'
+                rep.finding('R5.4', site, f.loc(),
+                            'loading a byte %s as the value of a MsgPack map entry through the map loader: the key argument (%s) is the scope\'s own '
+                            'current-key slot; when OpenBinaryScope fails (value already skipped by policy) OpenArrayScope looks the key up again, the '
+                            'rescan reads the NEXT key into that slot, the slot compares equal to itself and the next entry\'s value is consumed under '
+                            'this key' % (what, kt), {'sequence': opens[0], 'instantiation': f.id}, func=f.id)
 
     # ---------------------------------------------------------------- R5.3 (decision tables) lives in rules/msgpack_tables.py
     try:
